@@ -23,3 +23,7 @@ import RpylibModel.Proofs.C18
 import RpylibModel.Proofs.C19
 import RpylibModel.Proofs.C20
 import RpylibModel.ProofsGen.C20Table
+-- source-derived tie (definitions regenerated from /repo's source on every run by harness/srctie.py)
+import RpylibModel.ProofsGen.SrcC14
+import RpylibModel.ProofsGen.SrcC17
+import RpylibModel.ProofsGen.SrcC17Model
